@@ -505,6 +505,12 @@ pub struct Wire {
     pub op: &'static str,
 }
 
+/// values of the repeated request header `x-verif-multi` that go with a tag (0-3 field lines)
+pub fn multi_values(tag: &str) -> Vec<String> {
+    let h = fnv(tag.as_bytes());
+    (0..(h % 4)).map(|i| format!("m{}-{:x}", i, splitmix64(h ^ i) & 0xffff)).collect()
+}
+
 pub fn finish_request(method: &'static str, target: String, ct: Option<String>, body: Option<Vec<u8>>, fr: Option<&Framing>, tag: &str) -> (Vec<u8>, Vec<usize>, Parts) {
     let parts = Parts {
         ct: ct.clone(),
@@ -513,6 +519,10 @@ pub fn finish_request(method: &'static str, target: String, ct: Option<String>, 
         empty_frames: fr.map(|f| f.chunked && f.ext).unwrap_or(false),
     };
     let mut headers = vec![("x-verif-tag".to_string(), tag.to_string())];
+    for (i, v) in multi_values(tag).into_iter().enumerate() {
+        // the same field name on several lines, in two spellings
+        headers.push((if i % 2 == 0 { "x-verif-multi" } else { "X-Verif-Multi" }.to_string(), v));
+    }
     if let Some(ct) = ct {
         headers.push(("content-type".to_string(), ct));
     }
@@ -712,6 +722,14 @@ pub fn judge(w: &Wire, tag: &str, local: std::net::SocketAddr, resp: &http1::Raw
     let uri_ok = c["uri"] == json!(w.target) || c["uri"].as_str().map(|u| u.starts_with("http://") && u.ends_with(w.target.as_str()) && u.len() > w.target.len() && !u[7..u.len() - w.target.len()].contains('/')).unwrap_or(false);
     ensure!(uri_ok, "ctx-uri", "uri {} != {}", c["uri"], w.target);
     ensure!(c["hdr_tag"] == json!(tag), "ctx-header", "header tag {} != {} (another request's data?)", c["hdr_tag"], tag);
+    ensure!(
+        c["hdr_multi"] == json!(multi_values(tag)),
+        "ctx-repeated-header",
+        "the request carried x-verif-multi on {} field lines with values {:?}; the request context shows {}",
+        multi_values(tag).len(),
+        multi_values(tag),
+        c["hdr_multi"]
+    );
     ensure!(c["remote_addr"] == json!(local.to_string()), "ctx-remote-addr", "remote_addr {} != client socket {}", c["remote_addr"], local);
     ensure!(
         resp.header("x-request-id").as_deref() == c["request_id"].as_str(),
@@ -919,6 +937,9 @@ fn check_h2(addr: std::net::SocketAddr, rt: &tokio::runtime::Runtime, b: &Batch,
         for (wi, (_, w, _)) in wires.iter().enumerate() {
             let late = lates[wi];
             let mut rb = hyper::Request::builder().method(w.method).uri(format!("http://{}{}", addr, w.target)).header("x-verif-tag", wires.iter().find(|x| std::ptr::eq(&x.1, w)).map(|x| x.0.clone()).unwrap());
+            for v in multi_values(wires.iter().find(|x| std::ptr::eq(&x.1, w)).map(|x| x.0.as_str()).unwrap()) {
+                rb = rb.header("x-verif-multi", v);
+            }
             if let Some(ct) = &w.parts.ct {
                 rb = rb.header("content-type", ct);
             }
@@ -1132,7 +1153,7 @@ pub fn batch_strategy(max_clients: usize) -> impl Strategy<Value = Batch> {
 }
 
 pub fn run(ctx: &mut Ctx) {
-    ctx.rule = "batches of 1-16 (thorough 1-64) concurrent clients, each sending 1-5 requests (keep-alive or pipelined) to typed echo endpoints: path (string/u32/uuid/enum/i64/bool), wildcard (of strings, of enum values, of UUIDs), first-page parameters of a paginated endpoint (same field types as the query endpoint, plus limit), query (all scalar widths, char, f64, options, enum, default), JSON body (nested/recursive/tagged enum/map/options), urlencoded body, multipart, raw and streaming bodies; every value encoded with style choices (percent-encoding eagerness and hex case, '+' vs %20, key order, JSON escapes/whitespace, null vs absent, content-type spelling, content-length vs chunked with extensions/trailers, TCP split points). Oracle: echoed JSON of what the handler received == what was encoded; method/URI/header tag/peer address/request id belong to this request. non-trivial = value needing encoding (reserved, non-ASCII, empty, extreme) or chunked framing or a batch with >=4 concurrent peers; distinct by request. Phase h2_multiplexed sends a whole batch as concurrent streams of one HTTP/2 connection (bodies with a declared length or as DATA frames of generated sizes, optionally interleaved with zero-length DATA frames); phase https_interleaved_handshakes interleaves the TCP connect / TLS handshake / request steps of 2-5 clients".into();
+    ctx.rule = "batches of 1-16 (thorough 1-64) concurrent clients, each sending 1-5 requests (keep-alive or pipelined) to typed echo endpoints: path (string/u32/uuid/enum/i64/bool), wildcard (of strings, of enum values, of UUIDs), first-page parameters of a paginated endpoint (same field types as the query endpoint, plus limit), query (all scalar widths, char, f64, options, enum, default), JSON body (nested/recursive/tagged enum/map/options), urlencoded body, multipart, raw and streaming bodies; every value encoded with style choices (percent-encoding eagerness and hex case, '+' vs %20, key order, JSON escapes/whitespace, null vs absent, content-type spelling, content-length vs chunked with extensions/trailers, TCP split points). Oracle: echoed JSON of what the handler received == what was encoded; method/URI/header tag/all values of a header sent on 0-3 field lines/peer address/request id belong to this request. non-trivial = value needing encoding (reserved, non-ASCII, empty, extreme) or chunked framing or a batch with >=4 concurrent peers; distinct by request. Phase h2_multiplexed sends a whole batch as concurrent streams of one HTTP/2 connection (bodies with a declared length or as DATA frames of generated sizes, optionally interleaved with zero-length DATA frames); phase https_interleaved_handshakes interleaves the TCP connect / TLS handshake / request steps of 2-5 clients".into();
     ctx.assume("floats in JSON bodies are restricted to values serde_json's fast path parses exactly; non-finite floats are not sent");
     ctx.assume("thread interleavings on the server are not controlled; only schedule-independent equalities are asserted");
     let rt = tokio::runtime::Builder::new_multi_thread().worker_threads(4).enable_all().build().unwrap();
